@@ -113,10 +113,29 @@ def exn_coq(code):
 
 # ---------------------------------------------------------------------------------------
 # (T)
+SELFTEST = {}
+
+
 def translators(repo):
     import c03_lock_ast
+    import c03_selftest
+    # the extractor must reject every perturbation of the CURRENT source that breaks the lock
+    # discipline (fail closed if it does not: a translator that accepts everything is worthless)
+    rejected, total, failures = c03_selftest.run(repo)
+    SELFTEST.update({"rejected": rejected, "total": total, "failures": failures})
+    if failures or total < 10:
+        raise RuntimeError("lock-table translator self-test failed: %d/%d perturbed sources rejected; accepted: %r"
+                           % (rejected, total, failures))
     ctor, methods = c03_lock_ast.extract(repo)
     return {"C03_Gen": c03_lock_ast.render(ctor, methods)}
+
+
+def extra_evidence(results):
+    grids = [r for r in results if not r.get("abnormal") and isinstance(r.get("obs"), dict) and r["obs"].get("grid")]
+    return {"translator_selftest": dict(SELFTEST),
+            "two_preemption_grids": {"cases": len(grids),
+                                     "complete_stride_1": sum(1 for r in grids if r["obs"]["grid"]["stride"] == [1, 1]),
+                                     "schedules": sum(r["obs"]["grid"]["n"] for r in grids)}}
 
 
 # ---------------------------------------------------------------------------------------
@@ -195,7 +214,26 @@ def _sys_scheds(a, b):
     return [["a", a, [a, k, b]] for k in range(SYS_POSITIONS)]
 
 
+GRID_OPS = [["set", 0, 7], ["set", 2, 7], ["get", 0], ["get", 2], ["getd", 2, 9], ["del", 0], ["pop", 0], ["popd", 2, 5],
+            ["popitem"], ["clear"], ["setdefault", 2, 9], ["setdefault", 0, 9], ["update", [[2, 7]], "list"],
+            ["ior", [[2, 7]], "dict"], ["eq", [[0, 1], [1, 2]]], ["copy"], ["len"], ["in", 0], ["in", 2]]
+
+
+def _grid_case(rng, cap):
+    """two threads, one operation each, ALL placements of <= 2 pre-emptions (thread a is pre-empted
+    before its opcode k1, thread b runs and is pre-empted before its opcode k2, a resumes ...);
+    if the grid has more than `cap` points the positions are taken with the smallest stride that
+    fits (reported in the observation)"""
+    mx = rng.choice([1, 2, 2, 3])
+    a, b = rng.choice(GRID_OPS), rng.choice(GRID_OPS)
+    return {"kind": rng.choice(["LRI", "LRU"]), "max": mx, "on_miss": rng.choice([0, 0, 1]),
+            "init": [[0, 1], [1, 2], [5, 3]][:rng.choice([mx, mx, max(0, mx - 1)])],
+            "threads": [[a], [b]], "scheds": [["grid2", rng.randrange(2), cap]]}
+
+
 def generate(rng, tier, n):
+    for _ in range(6 if tier == "quick" else 120):
+        yield _grid_case(rng, 300 if tier == "quick" else 2500)
     for i in range(n):
         c = _gen_program(rng, tier)
         nth = len(c["threads"])
@@ -316,12 +354,19 @@ def _one_run(case, plan, start):
     cls = cu.LRU if case["kind"] == "LRU" else cu.LRI
     on_miss = (lambda k: val_obj(ktok(k) + 50)) if case["on_miss"] else None
     cache = cls(max_size=case["max"], on_miss=on_miss)
-    for k, v in case["init"]:
-        cache[key_obj(k)] = val_obj(v)
     nth = len(case["threads"])
     sched = c03_sched.Sched(nth, plan, start, cu_file)
     kind = c03_sched.lock_kind(cache._lock)
+    # the lock is replaced BEFORE the sequential set-up: with a non re-entrant lock even a
+    # single-threaded insert (__setitem__ -> len(self)) blocks on itself; on the real lock that
+    # would hang this process, on the scheduler's lock it is reported as a deadlock at once
     cache._lock = c03_sched.SchedLock(sched, reentrant=(kind == "rlock"))
+    try:
+        for k, v in case["init"]:
+            cache[key_obj(k)] = val_obj(v)
+    except c03_sched.SelfDeadlock:
+        return ({"status": "deadlock", "order": [], "results": [[] for _ in range(nth)], "items": [], "len": 0,
+                 "probe": [], "probe_exn": None, "post_len": 0}, sched)
     results = [[] for _ in range(nth)]
 
     def body(tid):
@@ -329,6 +374,9 @@ def _one_run(case, plan, start):
             sched.opidx[tid] = i
             try:
                 r = _do_op(cache, op)
+                if r[0] == "copy" and kind != "rlock":
+                    # the private copy got the same kind of lock from its constructor
+                    r[1]._lock = c03_sched.SchedLock(sched, reentrant=False)
             except BadValue:
                 r = ["bad"]
             except Exception as e:
@@ -342,14 +390,21 @@ def _one_run(case, plan, start):
             for r in rs:
                 if r[0] == "copy":
                     cp = r[1]
-                    pr = _probe(cp, case["max"])
+                    try:
+                        pr = _probe(cp, case["max"])
+                    except c03_sched.SelfDeadlock:
+                        r[:] = ["bad"]
+                        continue
                     flat = [k for st in pr["probe"] for k in st]
                     vals = dict((k, v) for k, v in pr["items"])
                     ok = (pr["probe_exn"] is None and len(flat) == len(pr["items"]) == pr["len"]
                           and all(len(st) <= 1 for st in pr["probe"]) and type(cp) is type(cache)
                           and cp.max_size == cache.max_size and pr["post_len"] == case["max"])
                     r[:] = ["items", [[k, vals[k]] for k in flat]] if ok else ["bad"]
-        obs.update(_probe(cache, case["max"]))
+        try:
+            obs.update(_probe(cache, case["max"]))
+        except c03_sched.SelfDeadlock:
+            obs.update({"status": "deadlock", "items": [], "len": 0, "probe": [], "probe_exn": None, "post_len": 0})
     else:
         for rs in results:
             for r in rs:
@@ -360,11 +415,30 @@ def _one_run(case, plan, start):
 
 
 def _expand_scheds(case):
-    """concrete (start, plan) list; plans use absolute per-thread opcode counts"""
+    """concrete (start, plan) list; plans use absolute per-thread opcode counts.  Returns (list, grid info)"""
     nth = len(case["threads"])
     base = _one_run(case, [], 0)[1].count          # opcodes per thread without pre-emption
-    out, seen = [], set()
+    out, seen, grid = [], set(), None
     for s in case["scheds"]:
+        if s[0] == "grid2":
+            a, cap = s[1] % nth, s[2]
+            b = (a + 1) % nth
+            na, nb = base[a] + 1, base[b] + 1
+            s1 = s2 = 1
+            while ((na + s1 - 1) // s1) * ((nb + s2 - 1) // s2) > cap:
+                if na // s1 >= nb // s2:
+                    s1 += 1
+                else:
+                    s2 += 1
+            pts = 0
+            out.append((a, []))
+            for k1 in range(0, na, s1):
+                out.append((a, [(a, k1, b)]))
+                for k2 in range(0, nb, s2):
+                    out.append((a, [(a, k1, b), (b, k2, a)]))
+                    pts += 1
+            grid = {"stride": [s1, s2], "n": pts, "opcodes": [na, nb]}
+            continue
         kind, start, pre = s[0], s[1] % nth, s[2:]
         plan = []
         for (tid, x, to) in pre:
@@ -378,14 +452,15 @@ def _expand_scheds(case):
         if key not in seen:
             seen.add(key)
             out.append((start, plan))
-    return out
+    return out, grid
 
 
 def run_impl(case):
     runs = {}
     nsched = 0
     switched = blocked = 0
-    for (start, plan) in _expand_scheds(case):
+    scheds, grid = _expand_scheds(case)
+    for (start, plan) in scheds:
         obs, sched = _one_run(case, plan, start)
         nsched += 1
         switched += 1 if sched.switches > len(case["threads"]) - 1 else 0
@@ -397,7 +472,7 @@ def run_impl(case):
             obs["mult"] = 0
             runs[key] = obs
         runs[key]["mult"] += 1
-    return {"runs": list(runs.values()), "n_sched": nsched, "n_switched": switched, "n_blocked": blocked}
+    return {"runs": list(runs.values()), "n_sched": nsched, "n_switched": switched, "n_blocked": blocked, "grid": grid}
 
 
 # ---------------------------------------------------------------------------------------
@@ -527,7 +602,9 @@ def distribution(d, case, obs):
                 if x[0] == "exn":
                     inc("exceptions", x[1])
     if len(case["scheds"]) >= SYS_POSITIONS:
-        inc("systematic_cases", "n")
+        inc("systematic_cases", "single_preemption_sweeps")
+    if obs.get("grid"):
+        inc("systematic_cases", "two_preemption_grids")
 
 
 def sample(case, obs):
